@@ -1,0 +1,22 @@
+//go:build verif
+
+package share
+
+import "errors"
+
+// Thin wrappers that expose unexported helpers to the verification harness in
+// /verif. They are only compiled with the build tag "verif".
+
+func VerifParseDelimiter(input []byte) ([]byte, uint64, error) { return parseDelimiter(input) }
+
+func VerifExtractRawData(shares []Share) ([]byte, error) { return extractRawData(shares) }
+
+func VerifParseRawData(rawData []byte) ([][]byte, error) { return parseRawData(rawData) }
+
+func VerifNumberOfSharesNeeded(first Share) (int, error) { return numberOfSharesNeeded(first) }
+
+func VerifDelimLen(size uint64) int { return delimLen(size) }
+
+func VerifValidSequenceLen(s Sequence) error { return s.validSequenceLen() }
+
+func VerifIsIncompleteDelimiter(err error) bool { return errors.Is(err, errIncompleteDelimiter) }
